@@ -473,6 +473,10 @@ func CorpusMulti(seed int64, tier string) []*Case {
 		{Name: "Cache", TParams: []TypeParam{{Name: "K", Constraint: "any"}, {Name: "V", Constraint: "any"}}, OneFile: true,
 			Methods: []Method{meth("Get", ps(par("k", TParam("K"))), ps(par("", TParam("V")), par("", Basic("bool")))), meth("Put", ps(par("k", TParam("K")), par("v", TParam("V"))), nil)}},
 	}
+	// two interfaces in different files, each importing a different package under the same alias
+	ifs = append(ifs,
+		Iface{Name: "AliasA", OneFile: true, Aliases: []map[int]string{{0: "cl"}}, Methods: []Method{meth("Do", ps(par("c", Named(0, "T"))), ps(par("", Named(0, "U"))))}},
+		Iface{Name: "AliasB", OneFile: true, Aliases: []map[int]string{{2: "cl"}}, Methods: []Method{meth("Do", ps(par("c", Named(2, "T"))), ps(par("", errT)))}})
 	src := newSrc("msrc", pkgs, ifs...)
 	names := []string{"Reader", "Writer", "Other", "Nothing"}
 	var lists [][]string
@@ -488,14 +492,16 @@ func CorpusMulti(seed int64, tier string) []*Case {
 			}
 		}
 	}
-	lists = append(lists, []string{"Cache", "Reader"}, []string{"Reader", "Cache"}, []string{"Cache", "Nothing", "Writer"}, []string{"Nothing", "Cache:Mem"},
+	lists = append(lists, []string{"AliasA", "AliasB"}, []string{"AliasB", "AliasA", "Writer"},
+		[]string{"Cache", "Reader"}, []string{"Reader", "Cache"}, []string{"Cache", "Nothing", "Writer"}, []string{"Nothing", "Cache:Mem"},
 		[]string{"Reader:Reader", "Writer"}, []string{"Writer:Other", "Reader:Nothing"}, []string{"Other:Writer"},
 		[]string{"Reader:R1", "Writer:W1"}, []string{"Other:Fake", "Reader"}, []string{"Reader:ReaderDouble", "Reader:ReaderTwin"},
 		[]string{"Writer:Alpha", "Other:Beta", "Reader:Gamma"}, []string{"Reader", "Writer", "Other", "Nothing"})
 	for i, l := range lists {
 		cfgs := []Cfg{{Dest: "implicit"}, {Dest: "other", WithResets: true}, {Dest: "other", SkipEnsure: true, Stub: true}, {Dest: "srcTest"}}
 		for k, cfg := range cfgs {
-			if tier != "thorough" && (i+k+int(seed))%4 != 0 && !strings.Contains(strings.Join(l, ","), ":") {
+			special := strings.Contains(strings.Join(l, ","), ":") || strings.Contains(strings.Join(l, ","), "Cache") || strings.Contains(strings.Join(l, ","), "Alias")
+			if tier != "thorough" && (i+k+int(seed))%4 != 0 && !special {
 				continue
 			}
 			if cfg.Dest != "other" && aliasIsIfaceName(l, names) {
